@@ -72,7 +72,8 @@ def hostile_disc(r, k=0, pairs=None):
     # in both catalogue orders: whatever is done about the collision, the second of the pair must not fall back to its raw name
     if pairs is not None:
         flip = pairs % 2 == 1
-        pairs = [((0x2E, b'_x'), (0x2E, b'/x')), ((0x24, b'A_B'), (0x24, b'A/B')), ((0x5F, b'Q'), (0x2F, b'Q'))]
+        # one pair per disc: a failure to create one file ends the extraction, so a second pair would never be reached
+        pairs = [[((0x2E, b'_x'), (0x2E, b'/x'))], [((0x24, b'A_B'), (0x24, b'A/B'))], [((0x5F, b'Q'), (0x2F, b'Q'))]][(pairs // 2) % 3]
         for (first, second) in pairs:
             if flip:
                 first, second = second, first
@@ -93,7 +94,7 @@ def run(ctx):
     n = 25 if ctx.tier == 'quick' else 300
     root = tempfile.mkdtemp(prefix='beebverif-c12-')
     try:
-        for k in range(n + 2):
+        for k in range(n + 6):
             d = hostile_disc(r, k, pairs=k - n) if k >= n else hostile_disc(r, k) if k < 20 or r.chance(3, 4) else discs.gen_disc(r, hostile=True, max_files=8)
             img = d.encode(discs.filler(r))
             sb = os.path.join(root, 's%d' % k)
